@@ -492,6 +492,7 @@ class PortalRun:
         _CUR = self
         sched = baton.begin(random.Random(f"baton:{seed}"), self.faults, "main", preempt=case.get("preempt", 0))
         simset.set_rng(random.Random(f"set:{seed}"), self.faults)
+        sched.on_switch = lambda who, where, nxt: self.h.rec("preempted", who, where, "->", nxt)
         snap = {}
 
         def snapshot():
